@@ -68,7 +68,8 @@ def gen_cases(tier, seed):
         i = 0
         while i < len(cs):
             n = rnd.choice([6, 10, 16, 24])
-            cases.append({"kind": kind, "conv": conv, "tl": rnd.choice([1, 3, 1000]), "cells": cs[i:i + n], "seed": rnd.randrange(10**6)})
+            cases.append({"kind": kind, "conv": conv, "tl": rnd.choice([1, 3, 1000]), "cells": cs[i:i + n], "seed": rnd.randrange(10**6),
+                          "zero_backoff": (i // n) % 3 == 1})  # a policy of no delay: the retry goes straight back to the queue
             i += n
 
     if tier == "quick":
@@ -191,7 +192,9 @@ async def scenario(loop, case, out, stats, fps, samples):
     w = World(loop, kind, converter=case["conv"], seed=case["seed"], latency=None if kind == "mem" else 0.001)
     try:
         await w.open()
-        policy = lambda retry_number=1: timedelta(seconds=POLICY_STEP * retry_number)  # noqa: E731
+        step = 0.0 if case.get("zero_backoff") else POLICY_STEP
+        policy = lambda retry_number=1: timedelta(seconds=step * retry_number)  # noqa: E731
+        stats["zero_backoff_runs" if case.get("zero_backoff") else "delayed_backoff_runs"] += 1
         r = w.router(retry_policy=policy)
         w.scripted_actor(r, "act")
 
@@ -208,7 +211,9 @@ async def scenario(loop, case, out, stats, fps, samples):
             id_ = f"c{i:03d}"
             ids[id_] = cell
             name = {"badpayload": "strict", "depfail": "depact"}.get(cell["o"], "guarded" if cell["o"].startswith("depeager") else "act")
-            kw = dict(retries=cell["N"], timeout=timedelta(seconds=1), store_result=cell["store"])
+            # execution timeouts of a day and more for the cells that are not about timing out (arithmetic on days)
+            long_to = [None, timedelta(days=1), timedelta(days=2, seconds=3)][i % 3] if "timeout" not in cell["o"] else None
+            kw = dict(retries=cell["N"], timeout=long_to or timedelta(seconds=1), store_result=cell["store"])
             if cell["rec"]:
                 kw["deferred_by"] = timedelta(seconds=PERIOD)
             await w.job(name, id_, cell["_script"], **kw).enqueue()
@@ -298,6 +303,24 @@ async def scenario(loop, case, out, stats, fps, samples):
                             out.append(V("wrong_disposition", kind, "reschedule-time", f"{id_}: reschedule next={nxt} not in ({tcall}, +{PERIOD}s]"))
                 if len(samples) < 2 and n == 0:
                     samples.append({"id": id_, "cell": {k: v for k, v in cell.items() if k != "_script"}, "attempt": a, "expected": exp, "got": got})
+        # the terminal action must also have taken effect at the broker: acknowledged = gone, dead-lettered = dead
+        await asyncio.sleep(0.3)
+        snap = w.rig.snapshot()
+        for id_, es in per_id.items():
+            if id_.startswith("s") or ids[id_]["rec"]:
+                continue
+            disp = [e for e in es if e["k"] == "call" and e.get("depth") == 0 and e.get("op") in ("ack", "nack", "reject", "requeue")]
+            rets = [e for e in es if e["k"] == "ret" and e.get("depth") == 0 and e.get("op") in ("ack", "nack", "reject", "requeue")]
+            if not disp or len(rets) < len(disp):
+                continue
+            last = disp[-1]["op"]
+            place = snap.get(id_, [])
+            want = {"ack": [], "nack": ["dead"]}.get(last)
+            if want is not None and place != want and not any(e["k"] == "ret" and e.get("op") == "consume" and e["n"] > disp[-1]["n"] for e in es):
+                stats["final_places_wrong"] += 1
+                out.append(V("disposition_not_effective", kind, f"{last}->{place[0] if place else 'gone'}", f"{id_} {ids[id_]['o']}: the last terminal action was {last}, but the message is at {place} after the run"))
+            elif want is not None:
+                stats["final_places_checked"] += 1
         loops = w.events("delivery_loop")
         if loops:
             out.append(V("delivery_loop", kind, ids.get(loops[0]["id"], {}).get("o", "?"), f"{loops[0]['id']} attempt {loops[0]['attempt']} was delivered more than {w.loop_cap} times"))
